@@ -42,7 +42,7 @@ func init() {
 					cells = append(cells, "deny/"+rule+"/"+pos)
 				}
 			}
-			cells = append(cells, "deny/first-aud/first", "deny/root/last", "dev/foreign-root", "dev/swap", "dev/dup", "dev/truncate", "dev/non-delegation", "sloppy-loader/nil-nil", "sloppy-loader/panics")
+			cells = append(cells, "deny/first-aud/first", "deny/root/last", "dev/foreign-root", "dev/swap", "dev/dup", "dev/repeat", "dev/repeat-at-end", "dev/truncate", "dev/non-delegation", "sloppy-loader/nil-nil", "sloppy-loader/panics")
 			for n := 1; n <= 6; n++ {
 				cells = append(cells, fmt.Sprintf("allow/n=%d", n))
 			}
@@ -128,8 +128,24 @@ func deviate(r *rand.Rand, s *chain.Scenario) {
 		s.Deviations = append(s.Deviations, fmt.Sprintf("swap@%d,%d", i, j))
 	case 9:
 		l := s.Links[i]
+		name := "dup"
+		if r.IntN(3) > 0 {
+			// the very same token listed again (the same CID twice in the proof list) - next to
+			// itself, or at the end of the list
+			if s.Links[i].ID == 0 {
+				s.Links[i].ID = 1 + r.IntN(1<<30)
+			}
+			l = s.Links[i]
+			l.RepeatID, l.ID = l.ID, 0
+			name = "repeat"
+			if r.IntN(2) == 0 {
+				s.Links = append(s.Links, l)
+				s.Deviations = append(s.Deviations, fmt.Sprintf("repeat-at-end@%d", i))
+				return
+			}
+		}
 		s.Links = append(s.Links[:i+1], append([]chain.Link{l}, s.Links[i+1:]...)...)
-		s.Deviations = append(s.Deviations, fmt.Sprintf("dup@%d", i))
+		s.Deviations = append(s.Deviations, fmt.Sprintf("%s@%d", name, i))
 	case 10:
 		s.Links = append(s.Links[:i:i], s.Links[i+1:]...)
 		s.Deviations = append(s.Deviations, fmt.Sprintf("truncate@%d", i))
